@@ -62,11 +62,11 @@ def judge_cid(case, part):
     part.nontrivial += 1
     signatures = {}
     for storage in STORAGES:
-        variants = [None] if storage != "ods" else [None, {"col_runs": True, "empty_as_p": True}]
+        variants = [None] if storage != "ods" else [None, {"col_runs": True, "empty_as_p": True}, {"annotations": True}]
         for features in variants:
             outcome, cid = load(store_rows(rows, storage, "cid", features))
             part.transitions += 1
-            key = storage if features is None else storage + "+runs"
+            key = storage if features is None else storage + ("+comments" if features.get("annotations") else "+runs")
             signatures[key] = c09.signature(cid) if cid is not None else outcome
     part.validated += len(signatures) - 1
     reference = signatures["csv"]
@@ -116,7 +116,7 @@ def judge_table(case, part):
     for data_format in FORMATS:
         rows, decls = cid_rows_for(fields, data_format, sheet)
         config = {"preset": data_format, "header": 0, "fields": fields, "sheet": sheet if data_format != "delimited" else 1,
-                  "odf": {"span_range": [1, 6], "span_nested": bool(sheet % 2), "col_runs": True, "paragraphs": True}}  # ODS data: part of every longer cell inside inline elements, runs of equal cells stored once, one paragraph per line of a cell
+                  "odf": {"span_range": [1, 6], "span_nested": bool(sheet % 2), "col_runs": True, "paragraphs": True, "annotations": case.get("number", 0) % 3 == 0}}  # ODS data: part of every longer cell inside inline elements, runs of equal cells stored once, one paragraph per line of a cell
         for storage in STORAGES:
             outcome, cid = load(store_rows(rows, storage, "tcid"))
             part.transitions += 2
@@ -171,6 +171,8 @@ def tables_for(fields, count):
     marked = [list(base_rows[0]), list(base_rows[1])]
     marked[0][0] = "\ufeff" + marked[0][0]
     tables.append((marked, True))
+    # a row of empty cells only between other rows: a row like any other in every storage format
+    tables.append(([list(base_rows[0]), [""] * len(fields), list(base_rows[1])], True))
     if len(fields) >= 3:
         # rows ending in two or three empty cells (an office suite stores such a run as one repeated cell); another row keeps the sheet width
         for trailing in (2, 3):
@@ -205,10 +207,10 @@ def run(ctx):
     table_count = 0
     for index, fields in enumerate(FIELD_SETS):
         for number, (table, has_rejects) in enumerate(tables_for(fields, 25 if quick else 80)):
-            cases.append({"kind": "table", "fields": fields, "table": table, "sheet": 1 + (index + number) % 2, "has_rejects": has_rejects})
+            cases.append({"kind": "table", "fields": fields, "table": table, "sheet": 1 + (index + number) % 2, "has_rejects": has_rejects, "number": number})
             table_count += 1
     ctx.pmap(MOD, "work", engine.chunks(cases, 8), label="C17")
     ctx.bound = {"CIDs": len(cases) - table_count, "tables": table_count, "combinations per table": "3 data formats x 3 CID storages = 9", "sheets": "data on sheet 1 or 2 with the matching Sheet property"}
     ctx.rule = ("differential oracle, no expected values: (a) the definition snapshot of a CID loaded from csv, ods (two encodings) and xlsx must be equal; (b) the event list (accept + values / reject + error class, row, "
                 "column) of a table must be equal across all 9 (data format, CID storage) combinations; non-trivial = every CID case and every table containing a rejected cell")
-    ctx.assumptions = ["every table has a row whose last cell is non-empty and contains no empty or ragged rows, because an xlsx sheet does not store empty strings (covered by C04)"]
+    ctx.assumptions = ["every table has a row whose last cell is non-empty and contains no ragged rows and no row of empty cells at its end, because an xlsx sheet does not store empty strings (covered by C04)"]
